@@ -36,8 +36,8 @@ CLAIMS = {
          "bitvec's Lsb0/Msb0 views are modelled by their documented numbering. " + TB, "5 C08"),
  "C12": ("C12_claimed_eq_instances (the pass's expansion = the spec's instance list for every tree incl. block repeats, nesting, refs, block refs), C12_pairwise_complete, C12_reject_iff_collision (full since the repair of D10), C12_kinds_never_collide, C12_error_names_both; tie = near-colliding trees (exhaustive pair family + random) through the real generator vs model and spec on the real MIR: verdict, both names with indices, address.",
          "Fuel-bounded expansion: a block named like the device loops forever in the real pass (D11b, noted). " + TB, "5 C12"),
- "C13": ("Five machine-checked refutations (D3, D3b, D4, D4b, D4c: genuine defects, known findings) and C13_untagged_partial: for any accepted tree every instance outside those classes fits its address type and the emitted checked arithmetic returns exactly the mathematical address; C13_walk_is_structural, C13_internal_type_covers, C13_address_type_bounds_from_source (Integer::min_value / max_value TRANSLATED from mir/mod.rs on every build), C13_error_states_bound, C13_missing_type_rejected (full); tie = trees near the type bounds over all seven address types vs an exact Z oracle, plus compiled drivers in debug (overflow panics) and release (wrap) for extreme index tuples.",
-         "Partial because the code is wrong (min/max walk ignores block repeats for children, block refs, refs keeping the target's address/repeat). " + TB, "5 C13"),
+ "C13": ("C13_accepted_all_fit and C13_accepted_no_overflow for EVERY instance of EVERY accepted tree (no class excluded since the min/max walk was repaired in /repo de9122d + 22a2001: block repeats, block refs, refs keeping their target's address or repeat, i128 arithmetic), C13_walk_exact (the walk's (min, max) is exactly the min and max of 0 and the points of its filter), C13_walk_bounds_instances, C13_internal_type_covers(+_instances), C13_error_states_bound, C13_unfit_walk_range_rejected, C13_missing_type_rejected, C13_address_type_bounds_from_source (Integer::min_value / max_value TRANSLATED from mir/mod.rs on every build); one open refutation D3b (C13_signed_product_refuted: signed internal type and a product (count-1)*|stride| beyond it) — the no-overflow half is stated under steps_product_ok; five historical witnesses of the repaired defects (D3, D4, D4b, D4c, D3c) about the pre-repair model; tie = trees whose extreme instance sits at type.min/max + {-2..2} (blocks, repeats, refs with/without overrides, block refs, i64 extremes) through the real generator vs model and spec on the real MIR, corpus of the nine witnesses with written-down expectations, compiled drivers in debug and release for every instance of accepted definitions.",
+         "Partial only for D3b (known finding) and for the literal/product positions of D22 (C19). " + TB, "5 C13"),
  "C14": ("C14_accept_iff (full iff for cfg-free definitions, any depth, over an ASCII model of convert_case 0.6), C14_search_finds_declared, C14_accepted_refs_resolve, C14_lowering_terminates_iff_acyclic, C14_recursive_check_iff / _total (the repaired refs_validated rejects exactly the recursive block refs; D11 was repaired in /repo df1ac90), C14_accepted_is_acyclic, C14_accepted_expansion_terminates, C14_self_ref_refuted (historical), front-end rejection theorems, C14_snake_idempotent, C14_pascal_idempotent_refuted/_partial, C14_device_name_check; tie = (A) thousands of ASCII names through the real front ends vs Case.v, (B) trees with colliding spellings / dangling / wrong-kind refs / layout overrides vs the model on the real MIR (error kind + names; resolved targets; emitted names).",
          "convert_case modelled for ASCII only; uniqueness over (name, cfg) pairs is stated for cfg-free definitions. " + TB, "5 C14"),
  "C18": ("C18_gates_are_conjunctions_fixed / C18_fixed_walk_correct (all trees, by tree induction with a stack invariant; the model follows the repaired walk since /repo 7d9ba5c), C18_combine_atoms, C18_no_cfg_unconditional, C18_never_panics, and the historical C18_multi_level_exit_refuted / C18_partial about the pop-once walk (D6, fixed); tie = random trees of depth 0..4 with frequent multi-level exits: every #[cfg] attribute of every emitted item (flattened atom sets and literal all(..) nesting) vs the model and vs the structural spec.",
